@@ -4,7 +4,7 @@
    with a structure-faithful model of both package shapes the two models
    are proved equal; the two packages export the same set of functions
    (regenerated list, coq/gen/Exports.v). *)
-From Strcase Require Import Base Utf8 Spec Impl Refine_Compare Fold FoldFacts FoldTables FoldFacts121 Safety.
+From Strcase Require Import Base Utf8 Spec Impl Refine_Compare Fold FoldFacts FoldTables FoldFacts121a Safety.
 From StrcaseGen Require Exports.
 
 Theorem C07_compare_parity : forall s t, wf s -> wf t ->
